@@ -245,6 +245,11 @@ class MapGen:
         # assemble sections
         secs = []
         order = ["VER ", "STR ", "UNIS", "UNIx", "MRGN", "TRIG", "UPRP", "UPUS", "SWNM", "WAV "]
+        if self.opts.get("shuffle_order"):
+            # the format fixes no section order: any permutation is a valid map (VER kept in front, as every editor does)
+            rest = order[1:]
+            rng.shuffle(rest)
+            order = order[:1] + rest
         payload = {}
         payload["VER "] = struct.pack("H", 205)
         payload["MRGN"] = S.spec_write(S.SPEC_FULL["MRGN"], {"_locations": locs})
